@@ -2,6 +2,8 @@
   C11 — suspicion timeout takes effect iff unrefuted; Down is final until forgotten.
 -/
 import FocaModel.Proofs.SendAll
+import FocaModel.Proofs.Units
+import FocaModel.Proofs.SwapRemove
 namespace Foca.C11
 open Foca
 
@@ -75,5 +77,54 @@ theorem cancelled_timeout_is_noop (E : Env) (m : Id) (inc : Nat) (c : Ctx) (sm :
 /-! non-vacuity: a refuted suspicion (record at incarnation 1, timer raised at 0) meets the hypotheses -/
 example : applyExisting [⟨⟨2, 0⟩, 1, .alive⟩] ⟨⟨2, 0⟩, 0, .down⟩ (fun r => r.inc == 0)
     = some ([⟨⟨2, 0⟩, 1, .alive⟩], ⟨true, false, false, .none⟩) := by decide
+
+/-- **An effective timeout.** The timer of the current epoch finds the record at the same identity and
+    incarnation, still active (`timeout_on_same_identity`: the summary is "applied, now inactive, active set
+    changed, no conflict"): the record becomes Down, and exactly this happens, in this order — the forget-timer
+    for that identity after `remove_down_after`, the MemberDown notification, the Down update enqueued for gossip
+    with the full number of transmissions; then the connection state is re-evaluated (Idle if it was the last
+    active member) and, iff `notify_down_members` is set, one TurnUndead goes to that identity. -/
+theorem effective_timeout (E : Env) (m : Id) (inc : Nat) (c : Ctx) (ms' : List Member) (sm : Summary)
+    (hex : applyExisting c.s.ms ⟨m, inc, .down⟩ (fun k => k.inc == inc) = some (ms', sm))
+    (happ : sm.applied = true) (hnow : sm.activeNow = false) (hch : sm.changedActive = true)
+    (hnc : sm.conflict = .none) :
+    ∃ c1, c1.s.ms = ms' ∧ c1.s.numActive = c.s.numActive - 1 ∧
+      c1.eff = c.eff ++ [.timer c.s.cfg.rda (.rm m), .notify (.down m)] ∧
+      (⟨m.addr, c.s.cfg.maxTx, E.codec.encMember ⟨m, inc, .down⟩⟩ : Entry Nat) ∈ c1.s.updates ∧
+      handleTimer E (.s2d m inc c.s.token) c =
+        (adjustConnectionState E >>= fun _ =>
+          if c.s.cfg.notifyDown then sendMessage E m .turnUndead else pure ()) c1 := by
+  obtain ⟨c1, hrun, hms, hnum, _, _, _, _, heff, hupd⟩ := applyExistingReport_some E (c := c) hex
+  refine ⟨c1, hms, ?_, ?_, hupd happ, ?_⟩
+  · rw [hnum]; simp [adjustActive, hch, hnow]
+  · rw [heff]; simp [summaryEffects, happ, hnow, hch, hnc]
+  · unfold handleTimer
+    simp only [bind_run, getS_run, beq_self_eq_true, if_true, hrun, happ, Bool.true_and]
+
+/-- The forget-timer removes the Down record of exactly the identity it names and nothing else: the list is
+    unchanged, or one record with that identity and state Down left (the rest is a permutation of what remains). -/
+theorem forget_timer_removes_exactly_that_identity (ms : List Member) (id : Id) :
+    removeIfDown ms id = ms ∨
+      ∃ m, m.id = id ∧ m.st = .down ∧ (m :: removeIfDown ms id).Perm ms := by
+  unfold removeIfDown
+  cases h : ms.findIdx? (fun m => m.id == id && m.st == .down) with
+  | none => exact Or.inl rfl
+  | some p =>
+    right
+    obtain ⟨hlt, hp, _⟩ := List.findIdx?_eq_some_iff_getElem.1 h
+    have hp' := Bool.and_eq_true_iff.1 hp
+    exact ⟨ms[p], by simpa using hp'.1, by simpa using hp'.2, swapRemoveAt_perm (List.getElem?_eq_getElem hlt)⟩
+
+/-- … and a forget-timer naming an identity that is not listed as Down (another identity of the address took
+    over, or the member is alive) changes nothing -/
+theorem forget_timer_for_another_identity_is_noop (ms : List Member) (id : Id)
+    (h : ∀ m ∈ ms, ¬ (m.id = id ∧ m.st = .down)) : removeIfDown ms id = ms := by
+  unfold removeIfDown
+  cases hf : ms.findIdx? (fun m => m.id == id && m.st == .down) with
+  | none => rfl
+  | some p =>
+    obtain ⟨hlt, hp, _⟩ := List.findIdx?_eq_some_iff_getElem.1 hf
+    have hp' := Bool.and_eq_true_iff.1 hp
+    exact absurd ⟨by simpa using hp'.1, by simpa using hp'.2⟩ (h ms[p] (List.getElem_mem hlt))
 
 end Foca.C11
